@@ -66,7 +66,7 @@ def _run_unit(unit_name, rlimit=None, extra_args=()):
     obligations = {}   # id -> dict(fn, label, kind)
     fn_labels = {}
     for k, o in enumerate(origin):
-        if o["kind"] in ("spec", "raw") and o["label"] and o["owner"]:
+        if o["kind"] in ("spec", "raw", "ghost") and o["label"] and o["owner"]:
             for lab in labels_of(o["label"]):
                 if lab.startswith("canary") or lab == "trusted" or lab.startswith("~"):
                     continue
@@ -172,7 +172,7 @@ def _run_unit(unit_name, rlimit=None, extra_args=()):
         if kind == "precondition":
             # primary span is the call site; the failed requires clause is the secondary span
             owner = o["owner"]
-        labs = [x.lstrip("~") for x in labels_of(o["label"])] if o["kind"] in ("spec", "raw") else []
+        labs = [x.lstrip("~") for x in labels_of(o["label"])] if o["kind"] in ("spec", "raw") or (o["kind"] == "ghost" and o["label"]) else []
         callee_clause = None
         if kind == "precondition" and not labs:
             # the call site is the primary span; the violated `requires` clause of the callee is a secondary span: name the failure after it
